@@ -4,6 +4,7 @@ import (
 	"fmt"
 	"go/types"
 	"math"
+	"math/bits"
 	"regexp"
 	"strconv"
 	"strings"
@@ -258,6 +259,70 @@ func init() {
 		}
 		return s
 	})
+	// math/bits by definition (the GOROOT versions use de Bruijn multiplication tables)
+	for _, w := range []int{64, 32, 16, 8} {
+		w := w
+		suffix := strconv.Itoa(w)
+		tz := func(fr *frame, a []value) value {
+			i := fr.i
+			s, ok := a[0].(*sym)
+			if !ok {
+				x := uint64(asInt64(a[0]))
+				if w < 64 {
+					x &= 1<<uint(w) - 1
+				}
+				if x == 0 {
+					return w
+				}
+				return bits.TrailingZeros64(x)
+			}
+			st := i.st
+			var conds []*smt.Term
+			for k := 0; k < w; k++ {
+				low := st.Extract(k, 0, s.t) // bits k..0 == 1 followed by k zeros
+				conds = append(conds, st.Eq(low, st.Const(smt.BV(k+1), 1<<uint(k))))
+			}
+			conds = append(conds, st.Eq(s.t, st.Const(s.t.S, 0)))
+			k := i.chooseN(conds)
+			if k < 0 {
+				panic(pathAbort{"assume", "TrailingZeros: infeasible"})
+			}
+			return k
+		}
+		reg("math/bits.TrailingZeros"+suffix, tz)
+		if w == 64 {
+			reg("math/bits.TrailingZeros", tz)
+		}
+		lenf := func(fr *frame, a []value) value {
+			i := fr.i
+			s, ok := a[0].(*sym)
+			if !ok {
+				x := uint64(asInt64(a[0]))
+				if w < 64 {
+					x &= 1<<uint(w) - 1
+				}
+				return bits.Len64(x)
+			}
+			st := i.st
+			var conds []*smt.Term
+			conds = append(conds, st.Eq(s.t, st.Const(s.t.S, 0)))
+			for k := 1; k <= w; k++ {
+				// highest set bit is k-1
+				hi := st.Extract(w-1, k-1, s.t)
+				conds = append(conds, st.Eq(hi, st.Const(smt.BV(w-k+1), 1)))
+			}
+			k := i.chooseN(conds)
+			if k < 0 {
+				panic(pathAbort{"assume", "Len: infeasible"})
+			}
+			return k
+		}
+		reg("math/bits.Len"+suffix, lenf)
+		if w == 64 {
+			reg("math/bits.Len", lenf)
+		}
+	}
+
 	// UTF-8 coding by definition (the GOROOT versions index 256-entry tables with the input byte)
 	reg("unicode/utf8.DecodeRuneInString", func(fr *frame, a []value) value {
 		bs := strBytes(a[0])
